@@ -111,6 +111,44 @@ def mutants(seed, n):
     return out
 
 
+OPERANDS = [("int", "3"), ("zero", "0"), ("float", "1.5"), ("string", '"a"'), ("bool", "true"), ("list item", "c"), ("list literal", "(red, blue)"),
+            ("empty list", "()"), ("divert target", "t"), ("void", "nothing()"), ("read count", "k"), ("other list", "(one)")]
+BINOPS = ["+", "-", "*", "/", "%", "==", "!=", "<", ">", "<=", ">=", "&&", "||", "?", "!?", "^"]
+
+
+def operand_faults(tier, seed, wd):
+    """every binary operator over every pair of operand KINDS (a value of each type, a void function result, a divert
+    target, lists of one and of two origins), and the unary ones: whatever the story does with them - a value, a runtime
+    error - it must not panic, and a reset must bring it back (the pairs of numbers are enumerated by TLC above; this
+    family is about the kinds)."""
+    rnd = random.Random(seed)
+    pairs = [(a, op, b) for a in OPERANDS for op in BINOPS for b in OPERANDS if "void" in (a[0], b[0]) or "list" in a[0] + b[0] or "divert" in a[0] + b[0]]
+    rnd.shuffle(pairs)
+    pairs = pairs[:150] if tier == "quick" else pairs
+    exprs_ = ["%s %s %s" % (a[1], op, b[1]) for a, op, b in pairs]
+    exprs_ += ["%s%s" % (u, a[1]) for u in ("-", "not ") for a in OPERANDS]
+    exprs_ += ["%s(%s)" % (f, a[1]) for f in ("INT", "FLOAT", "FLOOR", "LIST_COUNT", "LIST_MIN", "LIST_VALUE", "LIST_INVERT") for a in OPERANDS]
+    scs = []
+    for i, e in enumerate(exprs_):
+        src = ("LIST colours = red, green, blue\nLIST nums = one, two\nVAR c = red\nVAR t = -> k\n-> k\n== k ==\nBefore.\n"
+               "~ temp r = %s\nAfter {r}.\n-> END\n== function nothing() ==\n~ c = green\n" % e)
+        scs.append({"case": i, "programs": [{"ink": src}], "allow_compile_error": True, "fuel": 2000, "obs": {"save": False, "vars": False, "visits": False},
+                    "script": [{"op": "new"}, {"op": "turn"}, {"op": "reset"}, {"op": "cont"}]})
+    bad, outcomes = [], {}
+    for flavour in ("debug", "release"):
+        for r in lib.run_inkdrive(scs, wd, name="operands-" + flavour, flavour=flavour, timeout=600):
+            if r.get("op") == "programs":
+                if r["programs"][0].get("compile_error"):
+                    outcomes["compile error"] = outcomes.get("compile error", 0) + 1
+                continue
+            if r.get("res") == "panic" or r.get("op") == "abort" or "obs_panic" in r:
+                bad.append(dict(expression=exprs_[r["case"]], build=flavour, detail=r.get("panic") or r.get("obs_panic") or r.get("stderr"), op=r.get("op")))
+            elif r.get("op") == "cont":
+                k = "error" if (r.get("obs") or {}).get("errors") or r.get("res") == "err" else "value"
+                outcomes[k] = outcomes.get(k, 0) + 1
+    return exprs_, bad, outcomes
+
+
 def run(tier, seed):
     t0 = time.time()
     quick = tier == "quick"
@@ -142,6 +180,24 @@ def run(tier, seed):
         kinds["%s/%s" % (o["build"], o["kind"])] = kinds.get("%s/%s" % (o["build"], o["kind"]), 0) + 1
     lib.log("[C04] arithmetic: expressions=%d x 2 builds, outcomes=%s" % (len(uniq), kinds))
     design = dict(states=states, distinct=states, expressions=len(uniq), outcomes=kinds)
+    # (1b) operand kinds
+    ex_, bad, oc = operand_faults(tier, seed, wd)
+    known = {k["fp"]: k for k in lib.known_findings() if k["prop"] == "C04"}
+    seen_fp = {}
+    for b_ in bad:
+        where = re.search(r"@ (\S+)", b_["detail"] or "")
+        fp = "Fault.panic/operands@%s" % (where.group(1).replace("/repo/", "") if where else "?")
+        if fp in known:
+            if fp not in seen_fp:
+                print("KNOWN-FINDING: property=C04 %s %s" % (fp, known[fp]["text"]))
+            seen_fp[fp] = seen_fp.get(fp, 0) + 1
+            continue
+        seen_fp[fp] = seen_fp.get(fp, 0) + 1
+        nviol += 1
+        if seen_fp[fp] <= 2:
+            print("VIOLATION property=C04 replay=%s" % lib.write_replay("C04", dict(fingerprint=fp, **b_)))
+    lib.log("[C04] operand kinds: expressions=%d x 2 builds, outcomes=%s, panics=%s" % (len(ex_), oc, seen_fp))
+    design["operand_kinds"] = dict(expressions=len(ex_), outcomes=oc, panics=seen_fp)
     # (2) histories
     n = 30 if quick else 400
     progs = (common.gen_programs(n // 2, seed, vars=3, faults=2.0, functions=1.5, seq_inline=1) +
